@@ -20,7 +20,7 @@ Concat(ps) == IF ps = <<>> THEN <<>> ELSE Head(ps) \o Concat(Tail(ps))
 Why(ev) ==
   IF ~Inert(ev.fn, ev.out) THEN "inert"
   ELSE IF Concat(ev.parts) # ev.out THEN "perchar"
-  ELSE IF ~Lossless(ev.fn, ev.in, ev.out) THEN "lossless"
+  ELSE IF ~LosslessStrict(ev.fn, ev.in, ev.out) THEN "lossless"
   ELSE ""
 
 ASSUME TLCSet(1, 0)
